@@ -732,10 +732,11 @@ type checkerCall struct {
 }
 
 type runLog struct {
-	mu       sync.Mutex
-	Derives  []derivesCall
-	Checker  []checkerCall
-	Resolved []int
+	unavailable int
+	mu          sync.Mutex
+	Derives     []derivesCall
+	Checker     []checkerCall
+	Resolved    []int
 }
 
 func (cw *CWorld) nbToPairs(m NbMap) [][2]int {
@@ -886,7 +887,11 @@ func (cw *CWorld) context(log *runLog) (canIssue validator.CanIssueFunc[any], ch
 		if d, ok := resolvable[l.String()]; ok && cw.phase != "deny" {
 			return d, nil
 		}
-		if ls := l.String(); len(ls) > 0 && ls[len(ls)-1]%2 == 0 {
+		log.mu.Lock()
+		log.unavailable++
+		nth := log.unavailable
+		log.mu.Unlock()
+		if nth%2 == 1 {
 			return nil, validator.NewUnavailableProofError(l, nil) // a resolver need not give a cause
 		}
 		return nil, validator.NewUnavailableProofError(l, fmt.Errorf("not found"))
